@@ -40,6 +40,8 @@ for S in ("A", "B", "C", "D"):
             S, k, n.get("kind", ""), ", ".join(n.get("files", [])), (n.get("what") or "").replace("|", "/")[:200],
             len(r["checks"]), ("all silent" if not bad else "ALARM: %s" % bad) +
             ((" (%s re-run: the first run was disturbed by concurrent work on the shared tree (a theory file being edited, or the harness already using a hook the scratch worktree did not have yet))" % ", ".join(rerun)) if rerun else "")))
+if not rows:
+    raise SystemExit("no source results under /tmp/mut/ref*.out and /tmp/ref_results: seeded/harmless/RESULTS.md left as it is")
 open(V + "/seeded/harmless/RESULTS.md", "w").write(
     "# Behaviour-preserving refactorings run through every check\n\nWritten by fresh sub-agents given only a scratch worktree (no access to /verif), "
     "verified by them byte-identical on the shipped example batches; each patch was applied to a scratch worktree of /repo HEAD and ALL twenty quick "
